@@ -559,6 +559,8 @@ structure Program where
   /-- keyword-only arguments of the generated function, sorted -/
   args : List String
   body : List PyStmt
+  /-- which name holds which node (for an input node: the argument the caller must bind) -/
+  memo : List (Nat × String)
 deriving Inhabited
 
 /-- `generate_numpy_like`: `existing` = the names the generator was seeded with (inputs, output
@@ -568,7 +570,8 @@ def generate (g : PGraph) (root : Nat) (existing : List String) : Gen Program :=
   match emitNode g (root + 1) root st0 with
   | .ok (res, st) =>
     .ok { args := sortBy (fun a b => decide (a < b)) st.args.eraseDups,
-          body := st.lines.reverse ++ [.ret res] }
+          body := st.lines.reverse ++ [.ret res],
+          memo := st.memo }
   | .refuse w => .refuse w
   | .unmodelled w => .unmodelled w
 
